@@ -76,6 +76,19 @@ def fresh_int(name):
     raise AssumptionFailed()
 
 
+def fresh_list(name, minlen, cls=None, fields=()):
+    """Only meaningful symbolically (a list of arbitrary length); used by spec functions that stand for a callee."""
+    raise AssumptionFailed()
+
+
+def fresh_inst(cls, fields=()):
+    raise AssumptionFailed()
+
+
+def opaque(what="value"):
+    raise AssumptionFailed()
+
+
 class LogFile:
     """Native counterpart of the file model: a writable/readable file that also keeps the ghost log of pieces."""
 
